@@ -167,6 +167,10 @@ pub struct Model {
     pub cyc: Vec<u32>,
     /// handles the program holds temporarily while it calls a method through them
     pub pins: Vec<u32>,
+    /// handles in the program's pool (Act::Bulk): (object id, how many)
+    pub bulk: Vec<(u32, u32)>,
+    /// Weak pointers in the program's weak pool (Act::BulkWeak)
+    pub wbulk: Vec<(u32, u32)>,
     pub next_id: u32,
 }
 
@@ -179,6 +183,19 @@ impl Default for WT {
 impl Model {
     pub fn new() -> Model {
         Model { wr: [WT::None; NWR], ..Default::default() }
+    }
+
+    pub fn bulk_count(&self, id: u32) -> u32 {
+        self.bulk.iter().find(|x| x.0 == id).map_or(0, |x| x.1)
+    }
+    pub fn bulk_add(&mut self, id: u32, d: i64, weak: bool) {
+        let v = if weak { &mut self.wbulk } else { &mut self.bulk };
+        if let Some(e) = v.iter_mut().find(|x| x.0 == id) {
+            e.1 = (e.1 as i64 + d).max(0) as u32;
+        } else if d > 0 {
+            v.push((id, d as u32));
+        }
+        v.retain(|x| x.1 > 0);
     }
 
     pub fn obj(&self, id: u32) -> Option<&MObj> {
@@ -210,6 +227,9 @@ impl Model {
                 max += 1;
             }
         }
+        let b = self.bulk_count(id);
+        min += b;
+        max += b;
         for o in &self.objs {
             let n = o.t[..NT].iter().chain(o.h.iter()).filter(|s| **s == Some(id)).count() as u32;
             if n > 0 {
@@ -252,6 +272,9 @@ impl Model {
                 max += 1;
             }
         }
+        let b = self.wbulk.iter().find(|x| x.0 == id).map_or(0, |x| x.1);
+        min += b;
+        max += b;
         for o in &self.objs {
             let n = o.w.iter().filter(|s| **s == t).count() as u32;
             if n > 0 {
@@ -292,6 +315,7 @@ impl Model {
         let mut seen = HashSet::new();
         let mut st: Vec<u32> = self.r.iter().chain(self.g.iter()).flatten().cloned().collect();
         st.extend(self.pins.iter().cloned());
+        st.extend(self.bulk.iter().filter(|x| x.1 > 0).map(|x| x.0));
         // a value the program owns by value (try_unwrap result) is a root too
         for o in &self.objs {
             if o.val == Val::Unwrapped || o.val == Val::Unboxed {
@@ -333,7 +357,7 @@ impl Model {
             loop {
                 let mut rm = vec![];
                 for &x in g.iter() {
-                    let mut bad = self.r.iter().chain(self.g.iter()).any(|r| *r == Some(x)) || self.pins.contains(&x) || extra_roots.contains(&x);
+                    let mut bad = self.r.iter().chain(self.g.iter()).any(|r| *r == Some(x)) || self.pins.contains(&x) || self.bulk_count(x) > 0 || extra_roots.contains(&x);
                     if !bad {
                         for o in &self.objs {
                             // captures of pending actions and hidden slots of any existing owner are external
